@@ -14,7 +14,7 @@ import weakref
 import numpy as np
 
 from .. import compmon, gen, monitor, sanit
-from ..common import rng_for, split
+from ..common import config_value, rng_for, split
 from .C01 import make_twin
 
 LEVEL = "exploration"
@@ -309,6 +309,18 @@ def run_history(comps, rng, rec, mon, n_utts):
         x.setflags(write=False)
         kind = str(rng.choice(["chunked", "chunked", "chunked", "full", "fbf"]))
         sig.append((kind, cls, np.dtype(dt).name))
+        # a configuration value the features are stated relative to, changed for the duration of this utterance only
+        floor = float(rng.choice([1e-2, 1e-9])) if rng.random() < 0.15 else None
+        if floor is not None:
+            rec.count("utterances_under_a_temporary_log_floor")
+            if rng.random() < 0.5:
+                x = gen.signal(rng, N, str(rng.choice(["zeros", "noise_small"])), dt)
+                x.setflags(write=False)
+        elif rng.random() < 0.15:
+            x = gen.signal(rng, N, str(rng.choice(["zeros", "noise_small"])), dt)  # quiet: the floor matters
+            x.setflags(write=False)
+        ctx = config_value("LOG_FLOOR_VALUE", floor)
+        ctx.__enter__()
         try:
             if kind == "chunked":
                 parts = gen.composition(rng, N)
@@ -318,6 +330,13 @@ def run_history(comps, rng, rec, mon, n_utts):
                     parts = [0]
                 pos = 0
                 for j, n in enumerate(parts):
+                    if isinstance(comp, C.ShortIntegrationFrameComputer) and rng.random() < (0.3 if j == 0 else 0.06):
+                        # a chunk of an integer type: refused by the short-integration computer (ValueError), and a refused
+                        # call changes nothing - not on an idle computer either
+                        try:
+                            comp.compute_chunk(np.arange(int(rng.integers(0, 6)), dtype=np.int32))
+                        except ValueError:
+                            rec.count("integer_chunks_refused")
                     comp.compute_chunk(x[pos:pos + n])
                     pos += n
                     if rng.random() < 0.12:
@@ -348,6 +367,8 @@ def run_history(comps, rng, rec, mon, n_utts):
                 comp.finalize()
             except Exception:
                 pass
+        finally:
+            ctx.__exit__(None, None, None)
     return sig
 
 
